@@ -76,6 +76,26 @@ func simMathRand() uint64 {
 	return rand()
 }
 
+// SimStarve pins sync.Mutex's starvation-mode switch, which the real code takes when a waiter has
+// waited more than 1 ms of REAL time (runtime.nanotime is not virtualised inside a synctest bubble):
+// a goroutine parked by the simulator while it holds a lock makes its waiters cross that threshold
+// or not depending on machine load, and the hand-off order changes with it. 1 = every waiter counts
+// as starving (FIFO hand-off), 2 = none does; 0 = real behaviour.
+//
+//go:linkname SimStarve
+var SimStarve uint32
+
+//go:linkname sync_simStarve internal/sync.runtime_simStarve
+func sync_simStarve(real bool) bool {
+	switch SimStarve {
+	case 1:
+		return true
+	case 2:
+		return false
+	}
+	return real
+}
+
 //go:linkname maps_randIter internal/runtime/maps.randIter
 func maps_randIter() uint64 {
 	if SimIter != 0 {
@@ -126,5 +146,9 @@ patch('runtime.go', [("//go:linkname rand\nfunc rand() uint64\n",
                       "//go:linkname rand\nfunc rand() uint64\n\n//go:linkname randSeed\nfunc randSeed() uint64\n\n//go:linkname randIter\nfunc randIter() uint64\n")], pkg=MAPS)
 patch('rand.go', [("//go:linkname runtime_rand runtime.rand\n", "//go:linkname runtime_rand runtime.simMathRand\n")], pkg='math/rand/v2')
 patch('rand.go', [("//go:linkname runtime_rand runtime.rand\n", "//go:linkname runtime_rand runtime.simMathRand\n")], pkg='math/rand')
+patch('mutex.go', [("starving = starving || runtime_nanotime()-waitStartTime > starvationThresholdNs",
+                     "starving = starving || runtime_simStarve(runtime_nanotime()-waitStartTime > starvationThresholdNs)")], pkg='internal/sync')
+patch('runtime.go', [("//go:linkname runtime_nanotime\nfunc runtime_nanotime() int64\n",
+                       "//go:linkname runtime_nanotime\nfunc runtime_nanotime() int64\n\n//go:linkname runtime_simStarve\nfunc runtime_simStarve(real bool) bool\n")], pkg='internal/sync')
 json.dump({"Replace": FILES}, open(f'{O}/overlay.json', 'w'), indent=1)
 print('overlay written to', O)
